@@ -109,11 +109,14 @@ func icsEmit(ctx sdk.Context, stateDB vm.StateDB, event abi.Event, precompileAdd
 	return nil
 }
 func icsCopy(args abi.Arguments, v interface{}, values []interface{}) error {
-	h, ok := v.(*height)
-	if !ok {
+	switch t := v.(type) {
+	case *height:
+		t.TimeoutHeight = values[0].(clienttypes.Height)
+	case *allocs:
+		t.Allocations = values[0].([]cmn.ICS20Allocation)
+	default:
 		return errors.New("unexpected Copy target")
 	}
-	h.TimeoutHeight = values[0].(clienttypes.Height)
 	return nil
 }
 
